@@ -140,7 +140,7 @@ def run(ctx, chk):
         for b in fn["blocks"]:
             for s in b["s"]:
                 if s["f"] == "agg" and s["adt"].endswith("storage::Token"):
-                    aggs.add(mir_name(p))
+                    aggs.add("Token::clone" if (p.startswith("<") and "storage::Token" in p.split(" as ")[0] and "Clone" in p and p.endswith("::clone")) else mir_name(p))
                 if s["f"] == "fw" and s.get("chain") and any(a.endswith("storage::Token") for a, _ in s["chain"]):
                     aggs.add("write:" + mir_name(p))
     allowed = {"sr::storage::Token::new", "sr::storage::Token::clone"}
